@@ -36,6 +36,7 @@ def run(ctx, sess):
     ctx.rule('C14.6', 'head table entries are written once: a store to head_offsets[i] reachable from writer roots is guarded by head_offsets[i] == 0 and stores the offset of a chunk already written')
     ctx.rule('C14.7', 'seek bracket: after an in-place write every path to a zero return restores the saved position')
     ctx.rule('C14.11', 'the file header is written when the file is created and when it is closed, never in between: the function that writes the file header at offset 0 is called only from the raw open and the raw close')
+    ctx.rule('C14.12', 'no chunk is left half written by an argument error: where a public writer function hands a caller-supplied pointer straight to the chunk writer as payload, a missing pointer (NULL with a non-zero size) is rejected before the chunk header is written - the payload writer rejects it only after the header is in the file, and the next chunk would overwrite that header')
     ctx.rule('C14.9', 'the append operation is used only at the end of the file: in writer code no jls_raw_wr is reachable from a seek to a remembered chunk offset unless the saved end position was restored first')
     ctx.rule('C14.8', 'a chunk is linked (and its header cached for later rewrite) only after it was written and stamped: jls_raw_wr(&X.hdr) dominates jls_core_update_item_head(.., &X)')
 
@@ -216,6 +217,7 @@ def run(ctx, sess):
     # ---- C14.6
     head_table_rule(ctx, P, wreach, 'C14.6')
     file_header_rule(ctx, P)
+    payload_pointer_rule(ctx, P)
 
     # ---- C14.9
     n9 = 0
@@ -438,3 +440,42 @@ def file_header_rule(ctx, P):
                    'file creation / close' if ok else
                    'the file header (offset 0) is rewritten outside open and close: bytes that were stored are modified while the recording is in progress')
     ctx.floor('calls of the file header writer', n, 2)
+
+
+def payload_pointer_rule(ctx, P):
+    from ..graph import cond_facts
+    n = 0
+    for fn in P.all_functions():
+        if not fn.api or fn.file != 'src/writer.c':
+            continue
+        ptrs = {p['name'] for p in fn.params if p.get('t', '').startswith('p:') and not p.get('t', '').startswith('p:s:')}
+        sizes = {p['name'] for p in fn.params if p.get('t') in ('u32', 'u64')}
+        for c in fn.calls('jls_raw_wr'):
+            a = df.resolve_local(fn, c.args[2], c.block, c.idx) if len(c.args) > 2 else None
+            a0 = strip_casts(a) if a is not None else None
+            if a0 is None or a0.get('op') != 'ref' or a0.get('name') not in ptrs:
+                continue
+            v = a0['name']
+            n += 1
+            ctx.saw(fn, 1)
+            ok_edges = set()
+            for b in fn.blocks.values():
+                if b.cond is None or len(b.succs) < 2:
+                    continue
+                for label in ('T', 'F'):
+                    for (var, kind, cval) in cond_facts(fn, b.cond, label):
+                        if str(var) == v and kind == 'ne' and cval == 0:
+                            ok_edges.add((b.id, label))
+                        if str(var) in sizes and kind == 'eq' and cval == 0:
+                            ok_edges.add((b.id, label))      # nothing to write: a missing pointer is fine
+                # `size && !ptr` rejecting: its F edge means (size == 0 or ptr != 0)
+                e = strip_casts(b.cond)
+                if e.get('op') == 'bin' and e['o'] == '&&' and any(nd.get('op') == 'un' and nd.get('o') == '!' and strip_casts(nd['k'][0]).get('name') == v for nd in walk(e)):
+                    ok_edges.add((b.id, 'F'))
+            w = find_path(fn, 'entry', lambda e2, facts: 'target' if e2 is c else None, refine=False,
+                          edge_ok=lambda b, s_, label: (b.id, label) not in ok_edges)
+            ctx.ob('C14.12', w is None, fn.name, 'payload pointer %s checked before the chunk is started' % v, c.where(),
+                   'NULL with a non-zero size is rejected first' if w is None else
+                   '%s can be NULL with a non-zero size when the chunk header is written; the payload writer then fails, the header stays in the file and the next chunk overwrites it' % v,
+                   w.render() if w else None)
+    ctx.floor('caller pointers forwarded as chunk payload', n, 1)
